@@ -298,6 +298,45 @@ func (x *Exec) checkEnsures(fr *Frame, st *State, ct *Contract, fn *ssa.Function
 		t := ev.boolExpr(cl.Expr)
 		x.oblige(st, "ensures", cl.Label, t, cl.Tags, token.NoPos)
 	}
+	if ct.Refines != "" {
+		ict := x.prog.cs.Funcs[ct.Refines]
+		if ict == nil {
+			x.abort("refines %s: no such interface contract", ct.Refines)
+		}
+		// bind the interface contract's names: receiver, parameters, results
+		names := append([]string{}, ict.Params...)
+		var vals []Value
+		if fn.Signature.Recv() != nil && len(fn.Params) > 0 {
+			for _, p := range fn.Params {
+				vals = append(vals, fr.env[p])
+			}
+		}
+		for i, n := range names {
+			if i < len(vals) {
+				ev.bind[n] = vals[i]
+			}
+		}
+		for i, n := range ict.Results {
+			if i < len(results) {
+				ev.bind[n] = results[i]
+			}
+		}
+		recvName := ""
+		if len(names) > 0 {
+			recvName = names[0]
+		}
+		for i, cl := range ict.Ensures {
+			if recvName != "" && strings.Contains(cl.Src, recvName+".") {
+				continue // speaks about ghost model fields of the operator: not refined here
+			}
+			label := cl.Label
+			if label == "" {
+				label = fmt.Sprintf("clause%d", i)
+			}
+			t := ev.boolExpr(cl.Expr)
+			x.oblige(st, "refines", shortKey(ct.Refines)+":"+label, t, []string{"C18"}, token.NoPos)
+		}
+	}
 }
 
 // ------------------------------------------------------------------------------------------------
